@@ -32,6 +32,9 @@ namespace awkward {
 
     vm_output_ = content_.get()->vm_output();
     vm_error_ = content_.get()->vm_error();
+    // what the content has to put into its buffers before the first item (the
+    // leading zero of a list's offsets)
+    vm_data_from_stack_ = content_.get()->vm_from_stack();
   }
 
   const std::string
